@@ -100,23 +100,26 @@ fn compile_input_clauses() -> bool {
     } }
     // (b) checkpoint selection for compile (latest, and the halving hierarchy): 9 or 12 messages, manual checkpoints at every subset of 4 chosen
     //     messages in both append orders, optionally one cut point summarised twice; caches present vs absent, at the head and mid-thread
-    for n_msgs in [9usize, 12] { for mask in 0..16u32 { for rev in [false, true] { for dup in [false, true] {
+    for n_msgs in [9usize, 12] { for mask in 0..16u32 { for rev in [false, true] { for dup in [false, true] { for foreign in [false, true] {
         let positions: Vec<usize> = [1usize, n_msgs / 3, n_msgs / 2, n_msgs - 1].iter().enumerate().filter(|(b, _)| (mask >> b) & 1 == 1).map(|(_, p)| *p).collect();
         let mk = |mode: u8| { let st = fresh(mode, None); let mut seqs = Vec::new();
             for i in 0..n_msgs { st.append_message(T, "user".into(), "o".into(), format!("m{i}")).unwrap(); seqs.push(st.event_log.frames.borrow().last().unwrap().seq); }
             let mut order = positions.clone(); if rev { order.reverse(); } if dup { if let Some(p) = positions.first() { order.push(*p); } }
             for p in order { st.compaction_checkpoint_cumulative_v1(T, CompactionCheckpointCumulativeV1Request { summary_markdown: Some("s".into()), summary_artifact_id: None, to_message_id: None, to_seq: Some(seqs[p]), stride_messages: None, actor_id: "u".into(), origin: "o".into() }).unwrap(); }
+            // a LATER checkpoint frame of a kind the compiler does not support, cut at the same message as each cumulative checkpoint:
+            // it must not shadow the cumulative one
+            if foreign { for p in positions.iter() { st.append_compaction_checkpoint_created(T, CompactionCheckpointCreatedPayload { cut_rule_id: "manual_v1".into(), summary_kind: "rolling_v0".into(), summary_artifact_id: "f".repeat(64), from_seq: 0, from_message_id: None, to_seq: seqs[*p], to_message_id: None, actor_id: "u".into(), origin: "o".into() }).unwrap(); } }
             st };
         let (a, b) = (mk(0), mk(1));
         let head = a.event_log.frames.borrow().last().unwrap().seq;
         for from_seq in [head, (n_msgs / 2 + 1) as u64, 2, 0] {
             let (want, got) = (checkpoint_views(&a, from_seq), checkpoint_views(&b, from_seq));
             if want != got {
-                println!("WITNESS {{\"function\": \"ContinuityStore::hierarchical_compaction_checkpoints_for_compile_v1\", \"messages\": {}, \"checkpoints_at_message_numbers\": {:?}, \"appended_newest_first\": {}, \"first_cut_point_summarised_twice\": {}, \"from_seq\": {}, \"answer_with_caches\": {:?}, \"answer_from_the_truth_log\": {:?}, \"problem\": \"the checkpoints selected for compilation depend on the state of the rebuildable caches\"}}", n_msgs, positions, rev, dup, from_seq, got, want);
+                println!("WITNESS {{\"function\": \"ContinuityStore::hierarchical_compaction_checkpoints_for_compile_v1\", \"messages\": {}, \"checkpoints_at_message_numbers\": {:?}, \"appended_newest_first\": {}, \"first_cut_point_summarised_twice\": {}, \"foreign_kind_checkpoint_frames_appended_later_at_the_same_cuts\": {}, \"from_seq\": {}, \"answer_with_caches\": {:?}, \"answer_from_the_truth_log\": {:?}, \"problem\": \"the checkpoints selected for compilation depend on the state of the rebuildable caches\"}}", n_msgs, positions, rev, dup, foreign, from_seq, got, want);
                 return true;
             }
         }
-    } } } }
+    } } } } }
     false
 }
 
